@@ -120,6 +120,74 @@ static void flattenD(const PolyPathD& pp, int parent, int level, double scale, F
 
 static std::string ptstr(const Point64& p) { return "(" + std::to_string(p.x) + "," + std::to_string(p.y) + ")"; }
 
+// ------------------------------------------------------------------------------------------------ classifier
+// Named deterministic predicates over the witness describing HOW a node is misplaced (used as classifier tags).
+// The true container of node k is the innermost other polygon of the tree that has no vertex/midpoint of k
+// strictly outside and at least one strictly inside. Relative to the tree parent P of k:
+//   attached_too_high   the true container is a proper descendant of P (P may be the root)
+//   attached_too_deep   P is not the true container and the true container (or the root) is a proper ancestor of P
+//   attached_sideways   neither
+//   parent_is_true_container
+// plus skipped_<n> (levels between P and the true container), touches_true_container (some vertex of k lies on
+// it), edge_overlap_true_container (a positive-length collinear overlap of an edge of k with an edge of it).
+static bool is_ancestor(const Flat& t, int anc, int k) {   // anc == -1 is the root: ancestor of everything
+  if (anc < 0) return true;
+  for (int p = t.nodes[(size_t)k].parent; p >= 0; p = t.nodes[(size_t)p].parent) if (p == anc) return true;
+  return false;
+}
+static bool edges_overlap(const Path64& a, const Path64& b) {
+  size_t n = a.size(), m = b.size();
+  for (size_t i = 0; i < n; ++i) {
+    const Point64& p = a[i]; const Point64& q = a[(i + 1) % n];
+    if (p == q) continue;
+    for (size_t j = 0; j < m; ++j) {
+      const Point64& u = b[j]; const Point64& v = b[(j + 1) % m];
+      if (u == v || cross(p, q, u) != 0 || cross(p, q, v) != 0) continue;
+      // collinear: project on the dominant axis
+      bool byx = std::llabs(q.x - p.x) >= std::llabs(q.y - p.y);
+      int64_t a0 = byx ? std::min(p.x, q.x) : std::min(p.y, q.y), a1 = byx ? std::max(p.x, q.x) : std::max(p.y, q.y);
+      int64_t b0 = byx ? std::min(u.x, v.x) : std::min(u.y, v.y), b1 = byx ? std::max(u.x, v.x) : std::max(u.y, v.y);
+      if (std::max(a0, b0) < std::min(a1, b1)) return true;
+    }
+  }
+  return false;
+}
+static std::vector<std::string> classify_node(const Flat& t, int k, bool use_mid, const std::string& cls) {
+  const Node& N = t.nodes[(size_t)k];
+  int T = -1;
+  for (size_t j = 0; j < t.nodes.size(); ++j) {
+    if ((int)j == k) continue;
+    const Node& B = t.nodes[j];
+    size_t n = N.poly.size(); long long in = 0, out = 0;
+    for (size_t i = 0; i < n && !out; ++i) {
+      int l = locate(B.poly, B.bb, N.poly[i].x, N.poly[i].y, 1);
+      if (l == LOC_IN) ++in; else if (l == LOC_OUT) ++out;
+      if (use_mid) { const Point64& u = N.poly[(i + 1) % n]; int lm = locate(B.poly, B.bb, (i128)N.poly[i].x + u.x, (i128)N.poly[i].y + u.y, 2); if (lm == LOC_IN) ++in; else if (lm == LOC_OUT) ++out; }
+    }
+    if (out || !in) continue;
+    auto absa = [](i128 v) { return v < 0 ? -v : v; };
+    if (T < 0 || absa(B.a2) < absa(t.nodes[(size_t)T].a2)) T = (int)j;
+  }
+  std::vector<std::string> tags;
+  const int P = N.parent;
+  std::string rel;
+  if (T == P) rel = "parent_is_true_container";
+  else if (T >= 0 && is_ancestor(t, P, T)) rel = "attached_too_high";
+  else if (P >= 0 && is_ancestor(t, T, P)) rel = "attached_too_deep";
+  else rel = "attached_sideways";
+  tags.push_back(rel); tags.push_back(rel + "@" + cls);
+  if (T >= 0 && rel == "attached_too_high") tags.push_back("skipped_" + std::to_string(t.nodes[(size_t)T].level - (P < 0 ? 0 : t.nodes[(size_t)P].level)));
+  if (T >= 0) {
+    const Node& B = t.nodes[(size_t)T];
+    bool touch = false;
+    for (auto& v : N.poly) if (locate(B.poly, B.bb, v.x, v.y, 1) == LOC_ON) touch = true;
+    tags.push_back(touch ? "touches_true_container" : "clear_of_true_container");
+    if (edges_overlap(N.poly, B.poly)) tags.push_back("edge_overlap_true_container");
+  }
+  return tags;
+}
+static std::vector<std::string> join_tags(std::vector<std::string> a, const std::vector<std::string>& b) { a.insert(a.end(), b.begin(), b.end()); return a; }
+
 // ------------------------------------------------------------------------------------------------ the claims
 struct NestStats { long long located = 0, on_boundary = 0, mid_located = 0; };
 
@@ -151,7 +219,7 @@ static bool check_nesting(Ctx& ctx, const Case& c, const Flat& t, bool rev, bool
     bool negative = nd.a2 < 0;
     bool expect_negative = (should_be_hole != rev);
     if (negative != expect_negative) {
-      ctx.violation("C04.hole_parity", { "ishole_vs_orientation", which, cls, rev ? "rev" : "norev" }, c,
+      ctx.violation("C04.hole_parity", join_tags({ "ishole_vs_orientation", which, cls, rev ? "rev" : "norev" }, classify_node(t, (int)k, use_mid, cls)), c,
         std::string(which) + " node " + std::to_string(k) + " at depth " + std::to_string(nd.level) + " IsHole=" + std::to_string(nd.lib_hole) +
         " has " + (negative ? "negative" : "positive") + " orientation, ReverseSolution=" + std::to_string(rev) + ", first vertex " + (nd.poly.empty() ? std::string("-") : ptstr(nd.poly[0])));
       return true;
@@ -169,7 +237,7 @@ static bool check_nesting(Ctx& ctx, const Case& c, const Flat& t, bool rev, bool
       ++ns.located; if (loc == LOC_ON) ++ns.on_boundary;
       if (loc == LOC_OUT) {
         ld d = dist_to_path(pa.poly, v);
-        ctx.violation("C04.child_in_parent", { "vertex_outside_parent", d <= tol ? "excursion_le_tol" : "excursion_gt_tol", which, cls }, c,
+        ctx.violation("C04.child_in_parent", join_tags({ "vertex_outside_parent", d <= tol ? "excursion_le_tol" : "excursion_gt_tol", which, cls }, classify_node(t, (int)k, use_mid, cls)), c,
           std::string(which) + " node " + std::to_string(k) + " (depth " + std::to_string(ch.level) + ") vertex " + ptstr(v) + " is strictly outside its parent polygon (node " +
           std::to_string(ch.parent) + ", first vertex " + ptstr(pa.poly[0]) + "), distance to the parent boundary " + ldstr(d) + ", tol(M) " + ldstr(tol));
         return true;
@@ -179,7 +247,7 @@ static bool check_nesting(Ctx& ctx, const Case& c, const Flat& t, bool rev, bool
         int lm = locate(pa.poly, pa.bb, (i128)v.x + u.x, (i128)v.y + u.y, 2);
         ++ns.mid_located;
         if (lm == LOC_OUT) {
-          ctx.violation("C04.child_in_parent", { "midpoint_outside_parent", which, cls }, c,
+          ctx.violation("C04.child_in_parent", join_tags({ "midpoint_outside_parent", which, cls }, classify_node(t, (int)k, use_mid, cls)), c,
             std::string(which) + " node " + std::to_string(k) + " (depth " + std::to_string(ch.level) + "): the midpoint of edge " + ptstr(v) + "-" + ptstr(u) + " is strictly outside the parent polygon (node " + std::to_string(ch.parent) + ")");
           return true;
         }
@@ -187,6 +255,11 @@ static bool check_nesting(Ctx& ctx, const Case& c, const Flat& t, bool rev, bool
     }
   }
   // (3) outside the siblings
+  auto sib_class = [&](int a, int b) {     // classify the node that is inside; if it is where it belongs, the other one
+    std::vector<std::string> ta = classify_node(t, a, use_mid, cls);
+    if (ta[0] != "parent_is_true_container") return ta;
+    return classify_node(t, b, use_mid, cls);
+  };
   auto sib = [&](const std::vector<int>& group) -> bool {
     for (size_t ia = 0; ia < group.size(); ++ia)
       for (size_t ib = 0; ib < group.size(); ++ib) {
@@ -200,7 +273,7 @@ static bool check_nesting(Ctx& ctx, const Case& c, const Flat& t, bool rev, bool
           ++ns.located; if (loc == LOC_ON) ++ns.on_boundary;
           if (loc == LOC_IN) {
             ld d = dist_to_path(B.poly, v);
-            ctx.violation("C04.sibling_disjoint", { "vertex_inside_sibling", d <= tol ? "excursion_le_tol" : "excursion_gt_tol", which, cls }, c,
+            ctx.violation("C04.sibling_disjoint", join_tags({ "vertex_inside_sibling", d <= tol ? "excursion_le_tol" : "excursion_gt_tol", which, cls }, sib_class(group[ia], group[ib])), c,
               std::string(which) + " node " + std::to_string(group[ia]) + " (depth " + std::to_string(A.level) + ") vertex " + ptstr(v) + " is strictly inside its sibling polygon node " +
               std::to_string(group[ib]) + " (first vertex " + ptstr(B.poly[0]) + "), distance to the sibling boundary " + ldstr(d) + ", tol(M) " + ldstr(tol));
             return true;
@@ -210,7 +283,7 @@ static bool check_nesting(Ctx& ctx, const Case& c, const Flat& t, bool rev, bool
             int lm = locate(B.poly, B.bb, (i128)v.x + u.x, (i128)v.y + u.y, 2);
             ++ns.mid_located;
             if (lm == LOC_IN) {
-              ctx.violation("C04.sibling_disjoint", { "midpoint_inside_sibling", which, cls }, c,
+              ctx.violation("C04.sibling_disjoint", join_tags({ "midpoint_inside_sibling", which, cls }, sib_class(group[ia], group[ib])), c,
                 std::string(which) + " node " + std::to_string(group[ia]) + ": the midpoint of edge " + ptstr(v) + "-" + ptstr(u) + " is strictly inside its sibling polygon node " + std::to_string(group[ib]));
               return true;
             }
